@@ -5,7 +5,7 @@ import shutil
 import tempfile
 
 from engine import gen_states, pool_map
-from readers import eol_for, run_cli, split_tag, write_text
+from readers import join_lines, run_cli, split_tag, write_text
 
 N1 = "ACGTTGCAAGGCTTAACGGATCCA"
 N2 = "TTGACCGATAGGCATCAAGT"
@@ -52,6 +52,9 @@ def pair_up(inp_lines, out_lines, by_name=True):
 
 def run_file(job):
     fid, specs, do_realign = job
+    import readers as _rd
+
+    _rd.CASE = str(fid)
     d = tempfile.mkdtemp(prefix="tags_")
     try:
         gfa = os.path.join(d, "g.gfa")
@@ -59,7 +62,7 @@ def run_file(job):
             f.write(f"S\ts1\t{N1}\tLN:i:{len(N1)}\tSN:Z:chr1\tSO:i:0\tSR:i:0\nS\ts2\t{N2}\tLN:i:{len(N2)}\tSN:Z:chr1\tSO:i:{len(N1)}\tSR:i:0\nL\ts1\t+\ts2\t+\t0M\n")
         lines = [make_line(k, fl, cg, rev, sp) for (k, fl, cg, rev, sp) in specs]
         gaf = os.path.join(d, "u.gaf")
-        write_text(gaf, "\n".join(lines) + eol_for(fid))
+        write_text(gaf, join_lines(lines, fid))
         cases = []
 
         def emit(path, argv, inp_lines, out_path):
@@ -104,7 +107,11 @@ def run(ctx):
             ctx.nontrivial.add(k)
     rnd.shuffle(specs)
     per = 400
-    jobs = [(f"f{j}", specs[j * per : (j + 1) * per], j < (12 if ctx.thorough else 3)) for j in range((len(specs) + per - 1) // per)]
+    # the first file is a large one (2,100 records; 4,200 in the thorough tier): output written in batches has boundaries there
+    big = min(len(specs), 4200 if ctx.thorough else 2100)
+    jobs = [("f0", specs[:big], True)]
+    rest = specs[big:]
+    jobs += [(f"f{j + 1}", rest[j * per : (j + 1) * per], j < (12 if ctx.thorough else 2)) for j in range((len(rest) + per - 1) // per)]
     res = pool_map(run_file, jobs, chunk=1)
     cases = [c for cs in res for c in cs]
     ctx.evaluations += sum(len(c["recs"]) for c in cases)
